@@ -1258,6 +1258,7 @@ def gen_untouched(rng, backend):
         co = {"optimize": False}     # optimising circuits with measured parameters is C03's subject (known defect there)
     return {"n": n, "backend": backend, "cmds": cm, "args": args, "fail": fail, "compile_options": co,
             "precompile": rng.random() < 0.4, "precompile_optimize": (not symbolic) and rng.random() < 0.6,
+            "precompile_kwargs": rng.choice([None, None, {"shots": 3}, {"cutoff_dim": 7}, {"shots": 2, "warn_connected": False}]),
             "call_optimize": (not symbolic) and rng.random() < 0.4,
             "sibling": ("ff" in feat or "free" in feat) and rng.random() < 0.4,
             "free_default": rng.choice([None, 0.2, -0.6]) if "free" in feat else None, "feat": sorted(feat)}
@@ -1288,6 +1289,7 @@ def untouched_verdicts(spec):
             out.append(("optimize:raises:" + type(e).__name__, "Program.optimize raised %r" % e))
     if spec["precompile"]:
         copts = {"optimize": True} if spec.get("precompile_optimize") else {}
+        copts.update(spec.get("precompile_kwargs") or {})      # run options / backend options handed to compile
         try:
             c1 = P.compile(compiler=backend, **copts)
             d = fp_diff(fp0, fingerprint(P))
@@ -1303,6 +1305,8 @@ def untouched_verdicts(spec):
         if not spec["fail"] and c1 is not None:
             # same compile options on both sides: merged and unmerged gates differ by truncation error on the fock backend
             x = attempt(lambda: new_engine(backend).run(P, args=dict(spec["args"]), compile_options=dict(copts)), backend)
+            if d is None and fp_diff(fp0, fingerprint(P)):
+                out.append(("untouched:run:" + fp_diff(fp0, fingerprint(P)), "Engine.run(compile_options=%r) changed the user's program" % (copts,)))
             y = attempt(lambda: new_engine(backend).run(c1, args=dict(spec["args"])), backend)
             if x[0] == "ok" and not same_sig(x, y, tol):
                 sig = "compile:run-of-compiled-program-raises:" + y[1] if y[0] == "err" else "compile:run-of-compiled-program-differs"
